@@ -401,6 +401,33 @@ func (x *c12exec) run(e common.Env, p *common.Part) *c12fail {
 				}
 			}
 			p.Count("held_windows", 1)
+		case "keygen-and-sign-at-once":
+			// a key generation among all nodes and a signing session run at the same time on the same scheme objects
+			s := x.signers(rng)
+			x.pick(op.Topic, s)
+			x.pick(tss.DkgTopicName, x.nodes)
+			ctx, cancel := context.WithTimeout(context.Background(), x.dl(6000))
+			var rk, rs map[uint16]callRes
+			var wg sync.WaitGroup
+			wg.Add(2)
+			go func() {
+				defer wg.Done()
+				rk = x.calls(x.nodes, func(u uint16) ([]byte, error) { return x.c.Schemes[u].KeyGen(ctx, h.N, h.N-1) })
+			}()
+			go func() {
+				defer wg.Done()
+				rs = x.calls(s, func(u uint16) ([]byte, error) { return x.sign(ctx, u, op.Topic) })
+			}()
+			wg.Wait()
+			cancel()
+			for u, r := range rk {
+				if r.err != nil {
+					return fail("concurrent-sessions-interfere", fmt.Sprintf("KeyGen failed at node %d while a Sign was running: %v", u, r.err), timedOut(r.err))
+				}
+			}
+			if w := checkSigs(rs, op.Topic); w != "" {
+				return fail("concurrent-sessions-interfere", "while a KeyGen was running: "+w, strings.Contains(w, "deadline"))
+			}
 		case "sign-two-topics":
 			s1 := x.signers(rng)
 			s2 := x.signers(rng)
@@ -578,7 +605,7 @@ func genC12(rng *rand.Rand, idx int, e common.Env) c12hist {
 			}
 		} else {
 			kinds = []string{"keygen-ok", "keygen-with-foreign-traffic", "keygen-duplicate", "keygen-missing-caller", "keygen-cancel", "keygen-cancel-held", "sign-ok", "sign-ok", "sign-too-few", "sign-cancel", "sign-cancel-held",
-				"sign-reuse-at-once", "sign-two-topics", "sign-duplicate", "late-replay", "sign-with-foreign-traffic"}
+				"sign-reuse-at-once", "sign-two-topics", "sign-duplicate", "late-replay", "sign-with-foreign-traffic", "keygen-and-sign-at-once"}
 		}
 		k := kinds[rng.Intn(len(kinds))]
 		if strings.HasPrefix(k, "keygen") {
@@ -603,7 +630,7 @@ func genC12(rng *rand.Rand, idx int, e common.Env) c12hist {
 }
 
 func unitC12(e common.Env, p *common.Part) {
-	p.Rule = "PRNG histories of 8..40 operations over 3..5 nodes and 2..4 topics on one cluster of real schemes (loud with real disc.Member, barrier, silent): successful / too-few-callers / cancelled KeyGen and Sign, cancellation with the continuation held at a verif point or inside the protocol instance's Init (between instance creation and handler registration), re-use of a topic the moment the previous call returned (continuation held after the result hand-off), two topics at once, duplicate Sign on a live topic, replay of a finished session's traffic, foreign-node and non-member traffic during a live session; every failed or cancelled operation is followed by a successful one on the same topic; distinct key = history hash; non-trivial when the history re-uses a topic, overlaps sessions or injects late/foreign traffic"
+	p.Rule = "PRNG histories of 8..40 operations over 3..5 nodes and 2..4 topics on one cluster of real schemes (loud with real disc.Member, barrier, silent): successful / too-few-callers / cancelled KeyGen and Sign, cancellation with the continuation held at a verif point or inside the protocol instance's Init (between instance creation and handler registration), re-use of a topic the moment the previous call returned (continuation held after the result hand-off), two topics at once, a key generation and a signing session at once, duplicate Sign on a live topic, replay of a finished session's traffic, foreign-node and non-member traffic during a live session; every failed or cancelled operation is followed by a successful one on the same topic; distinct key = history hash; non-trivial when the history re-uses a topic, overlaps sessions or injects late/foreign traffic"
 	p.Assumptions = append(p.Assumptions, "silent-mode histories use a fresh topic per session (re-use in silent mode is the separate sub-oracle c12silent); expected failures use short deadlines, expected successes a 6 s watchdog with a replay of the whole history at 5x deadlines before a deadline is judged")
 	n := e.Pick(64, 4000)
 	for i := 0; i < n; i++ {
